@@ -89,6 +89,9 @@ def thorough_extras(prop, reg, R):
                               expected_but_missed=missed, refactorings=len(ms), silent=sum(1 for x in ms if x["silent"]),
                               false_alarms=noisy, skipped=st.get("skipped", []), error=st.get("error"),
                               detail=dict(must_fire=mf, must_stay_silent=ms))
+    # the self-test is part of what the thorough tier claims to have done: if it could not run, say so (fail closed)
+    R.ob("A2", "selftest | the checker's self-test on the seeded / refactoring corpora ran", not st.get("error"),
+         detail=str(st.get("error") or ""))
     if missed or noisy or st.get("error"):
         sys.stderr.write("SELFTEST of the %s check: missed seeds %s, refactorings with alarms %s %s\n" % (prop, missed, noisy, st.get("error") or ""))
 
